@@ -167,6 +167,16 @@ def suite_isim(tier: str, seed: int, mult: int) -> SuiteResult:
             n = rng.choice([0, 1, 2, 2, 3, 4, 6, 9])
             dens = rng.choice([0.0, 0.1, 0.5, 0.9, 1.0])
             rows = [[1 if rng.random() < dens else 0 for _ in range(F)] for _ in range(n)]
+            if n >= 2 and rng.random() < 0.3:
+                # empty fingerprints mixed in: all but one / all but two / exactly one row empty, or duplicates of one row
+                kind = rng.choice(["all-but-one", "all-but-two", "one-empty", "duplicates"])
+                keep = set(rng.sample(range(n), {"all-but-one": 1, "all-but-two": min(2, n), "one-empty": n - 1}.get(kind, n)))
+                if kind == "duplicates":
+                    rows = [list(rows[0]) for _ in range(n)]
+                else:
+                    base = [1 if rng.random() < 0.5 else 0 for _ in range(F)]
+                    rows = [(r if any(r) else list(base)) if i in keep else [0] * F for i, r in enumerate(rows)]
+                cnt["mixed_empty_rows"] = cnt.get("mixed_empty_rows", 0) + 1
             X = np.asarray(rows, dtype=np.uint8).reshape(n, F)
             Xp = np.packbits(X, axis=1) if n else np.zeros((0, (F + 7) // 8), dtype=np.uint8)
             if n == 0:
